@@ -195,6 +195,15 @@ Outs(a) ==
     [] a.op = "len"    -> { Same(Rp(Len(data), 0, "nil", <<>>)) }
     [] a.op \in {"bytes", "string"} -> { Same(Rp(0, 0, "nil", data)) }
     [] a.op = "nilstr" -> { Same(Rp(0, 0, "nil", NilString)) }          \* (*Buffer)(nil).String()
+    [] a.op = "wbyterun" ->    \* a.n times WriteByte(a.c), logged as one event; reply.n = calls that returned nil
+         IF a.n <= 0 THEN { Same(Ok) }
+         ELSE { NoRead(data \o [i \in 1..a.n |-> a.c], Rp(a.n, 0, "nil", <<>>)) }
+    [] a.op = "rbyterun" ->    \* a.n times ReadByte(); reply: n = calls that delivered, b = the bytes in order,
+                               \* v = calls that failed, err = what the last call returned
+         LET k == MinOf(a.n, Len(data))
+         IN IF a.n <= 0 THEN { Same(Ok) }
+            ELSE IF k < a.n THEN { St(<<>>, 0, <<>>, FALSE, dirty \/ k > 0, Rp(k, a.n - k, "EOF", Take(data, k))) }
+            ELSE { St(Drop(data, k), -1, <<data[k]>>, FALSE, TRUE, Rp(k, 0, "nil", Take(data, k))) }
     [] a.op = "poke" ->        \* bs := Bytes(); bs[a.i] = a.c  -- "the slice aliases the buffer content at least
                                \* until the next buffer modification, so immediate changes to the slice will
                                \* affect the result of future reads"
@@ -233,6 +242,7 @@ CONSTANTS Alphabet,      \* bytes payloads are made of
           Runes,         \* arguments of WriteRune
           RErrs,         \* how a reader script ends (besides "neg")
           WErrs,         \* what the writer of WriteTo returns
+          RunLens,       \* extra repetition counts of the run-length operations
           MaxLen         \* state constraint on Len(data)
 
 (* constants TLC's cfg syntax cannot express (negative numbers) *)
@@ -254,8 +264,8 @@ Scripts  ==
 
 AllOps == {"write", "wstr", "wbyte", "wrune", "read", "next", "trunc", "grow", "rbyte", "rrune", "unbyte",
            "unrune", "reset", "growhuge", "len", "bytes", "string", "nilstr", "readfrom", "writeto", "rewrite",
-           "poke", "pipefrom", "pipeto"}
-Allocatable(n) == n <= 65536     \* Read(make([]byte, n)) and a Grow(n) that succeeds really allocate
+           "poke", "pipefrom", "pipeto", "wbyterun", "rbyterun"}
+Allocatable(n) == n <= 65537     \* Read(make([]byte, n)) and a Grow(n) that succeeds really allocate
 ActsOf(op) ==
   CASE op \in {"write", "wstr"} -> [op : {op}, p : Payloads]
     [] op = "wbyte"    -> [op : {op}, c : Alphabet]
@@ -264,6 +274,8 @@ ActsOf(op) ==
     [] op = "grow"     -> [op : {op}, n : {n \in Sizes : Allocatable(n)}]
     [] op \in {"next", "trunc"} -> [op : {op}, n : Sizes]
     [] op = "growhuge" -> [op : {op}, h : 0..4]          \* which unsatisfiable size (harness table); all alike here
+    [] op = "wbyterun" -> [op : {op}, n : {n \in Sizes \cup RunLens : n >= 0 /\ Allocatable(n)}, c : Alphabet]
+    [] op = "rbyterun" -> [op : {op}, n : {n \in Sizes \cup RunLens : n >= 0 /\ Allocatable(n)}]
     [] op = "poke"     -> [op : {op}, i : {n \in Sizes : n >= 0 /\ Allocatable(n)}, c : Alphabet]
     [] op \in {"pipefrom", "pipeto"} -> [op : {op}, p : {c \in Payloads : Len(c) <= 1 \/ c \in ExtraPayloads}]
     [] op = "readfrom" -> [op : {op}, s : Scripts]
@@ -295,7 +307,7 @@ PrevOK ==
 (* ReWrite is only defined where no Unread* is pending *)
 CleanNoUnread == ~dirty => lr = 0
 
-WriteOps == {"write", "wstr", "wbyte", "wrune", "readfrom", "pipefrom"}
+WriteOps == {"write", "wstr", "wbyte", "wrune", "readfrom", "pipefrom", "wbyterun"}
 ReadOps  == {"read", "next", "rbyte", "rrune"}
 Queries  == {"len", "bytes", "string", "nilstr"}
 IsPanic(r) == r.err \in {Panic(m).err : m \in {"runtime error", MsgTruncate, MsgGrowNeg, MsgTooLarge, MsgNegRead,
@@ -303,7 +315,7 @@ IsPanic(r) == r.err \in {Panic(m).err : m \in {"runtime error", MsgTruncate, Msg
 
 (* writes append (never touch what is already there) and invalidate Unread* *)
 WritesAppend ==
-  [][last'.op \in WriteOps =>
+  [][last'.op \in WriteOps /\ ~(last'.op = "wbyterun" /\ last'.n <= 0) =>     \* a run of no calls is no call
        /\ Len(data') >= Len(data) /\ Take(data', Len(data)) = data
        /\ lr' = 0
        /\ last'.op \in {"write", "wstr", "pipefrom"} => Drop(data', Len(data)) = last'.p /\ rep'.n = Len(last'.p)
@@ -362,6 +374,14 @@ PokeExact ==
   [][last'.op = "poke" =>
        /\ Len(data') = Len(data) /\ UNCHANGED <<lr, prev, ag, dirty>>
        /\ \A j \in 1..Len(data) : data'[j] = IF j = last'.i + 1 THEN last'.c ELSE data[j]
+    ]_allvars
+
+(* a run of ReadByte delivers a prefix, in order, and every call either delivered or failed *)
+RunReads ==
+  [][last'.op = "rbyterun" /\ last'.n > 0 =>
+       /\ rep'.b = Take(data, rep'.n) /\ data' = Drop(data, rep'.n) /\ rep'.n + rep'.v = last'.n
+       /\ rep'.v > 0 <=> last'.n > Len(data)
+       /\ IF rep'.v = 0 THEN lr' = -1 /\ prev' = <<data[rep'.n]>> ELSE lr' = 0 /\ rep'.err = "EOF"
     ]_allvars
 
 (* WriteTo into another buffer moves everything there and leaves this one empty *)
